@@ -63,6 +63,9 @@ def flatten(t, guard=T.TRUE, loops=(), stop_at_lphi=False) -> list:
             elif tag(tgt) == 'sub' and tgt[1] == ('it',):
                 col = ('dyn', tgt[2])
             if tag(val) == 'phi':
+                # f(x) on one path and f(y) on the other is f(x or y): one store of one routine
+                val = T.anti_unify(_phi_alternatives(val))
+            if tag(val) == 'phi':
                 # a value chosen by a helper with early returns == one guarded store per alternative
                 for g, alt in _phi_alternatives(val):
                     out.append(Op('set', cur[1], cur, col=col, row=row, value=alt, guard=T.mk_and([guard, g]),
